@@ -22,6 +22,7 @@ type c07Entry struct {
 	payload string
 	ttl     uint32
 	idx     int
+	t       int64 // second of the message id when it is known exactly (publish started and was acknowledged within one second), else 0
 }
 
 const defaultRetention = 2592000
@@ -147,7 +148,14 @@ func runC07(rec *vk.Rec, ci int) {
 				topic += "?ttl=0"
 			}
 			steps = append(steps, fmt.Sprintf("pub key=%s %s retain=%v ttl=%d %s", kp, chanStr(lv), retain, ttl, payload))
-			if _, err := c.Publish(topic, []byte(payload), retain); err != nil {
+			tb := time.Now().Unix()
+			_, err := c.Publish(topic, []byte(payload), retain)
+			ta := time.Now().Unix()
+			exactT := int64(0)
+			if tb == ta {
+				exactT = tb
+			}
+			if err != nil {
 				fail("no-reply", err.Error())
 				break
 			}
@@ -157,7 +165,7 @@ func runC07(rec *vk.Rec, ci int) {
 			}
 			hasStore := strings.Contains(kp, "s")
 			if (retain || ttl > 0) && hasStore {
-				e := c07Entry{levels: lv, payload: payload, idx: len(log)}
+				e := c07Entry{levels: lv, payload: payload, idx: len(log), t: exactT}
 				if ttl > 0 {
 					e.ttl = uint32(ttl)
 				} else {
@@ -183,6 +191,7 @@ func runC07(rec *vk.Rec, ci int) {
 				fail("no-reply", fmt.Sprintf("will connect rc=%d err=%v", rc, err))
 				break
 			}
+			wtb := time.Now().Unix()
 			if r.Bool() {
 				w.Disconnect()
 			} else {
@@ -195,7 +204,11 @@ func runC07(rec *vk.Rec, ci int) {
 			}
 			w.Abort()
 			if retain && strings.Contains(kp, "s") && strings.Contains(kp, "w") {
-				log = append(log, c07Entry{levels: lv, payload: payload, ttl: defaultRetention, idx: len(log)})
+				wt := int64(0)
+				if wta := time.Now().Unix(); wta == wtb {
+					wt = wtb
+				}
+				log = append(log, c07Entry{levels: lv, payload: payload, ttl: defaultRetention, idx: len(log), t: wt})
 				rec.Inc("wills_stored")
 			} else {
 				rec.Inc("wills_not_stored")
@@ -221,6 +234,29 @@ func runC07(rec *vk.Rec, ci int) {
 				from = now + 1000 // excludes everything
 			case 4:
 				until = now - 1000 // excludes everything
+			}
+			// windows whose bounds fall exactly on the second of a stored message (a client resuming from the time of
+			// the last message it saw); only when every stored message's second is known exactly
+			allExact := len(log) > 0
+			for _, e := range log {
+				if e.t == 0 {
+					allExact = false
+				}
+			}
+			exactWindow := false
+			if allExact && r.Chance(35) {
+				e := log[r.Intn(len(log))]
+				exactWindow = true
+				switch r.Intn(4) {
+				case 0:
+					from, until = e.t, 0
+				case 1:
+					from, until = e.t, e.t
+				case 2:
+					from, until = 0, e.t
+				case 3:
+					from, until = e.t+1, 0
+				}
 			}
 			if from != 0 {
 				opts = append(opts, fmt.Sprintf("from=%d", from))
@@ -251,7 +287,14 @@ func runC07(rec *vk.Rec, ci int) {
 			var want []c07Entry
 			if strings.Contains(kp, "l") {
 				excluded := from > now || (until != 0 && until < now)
-				if !excluded {
+				if exactWindow {
+					for i := len(log) - 1; i >= 0 && len(want) < limit; i-- {
+						if refMatch(false, f, log[i].levels) && log[i].t >= from && (until == 0 || log[i].t <= until) {
+							want = append(want, log[i])
+						}
+					}
+					rec.Inc("replays_with_window_on_a_message_second")
+				} else if !excluded {
 					for i := len(log) - 1; i >= 0 && len(want) < limit; i-- {
 						if refMatch(false, f, log[i].levels) {
 							want = append(want, log[i])
